@@ -142,11 +142,66 @@ def invalid (env : Env) (c : Cfg) : Bool :=
   (feat c env.iSnake && feat c env.iLowerCamel) ||
   (!feat c env.iGenJSON && feat c env.iAlwaysJSON)
 
-def handle (env : Env) (args : List Bytes) : Option Cfg :=
-  match run env (init env) args with
+/-- HandleOptions on a CodeUtils whose visible state is `c0` -/
+def handleFrom (env : Env) (c0 : Cfg) (args : List Bytes) : Option Cfg :=
+  match run env c0 args with
   | none => none
   | some c =>
       let c := slimRule env c
       if invalid env c then none else some c
+
+def handle (env : Env) (args : List Bytes) : Option Cfg := handleFrom env (init env) args
+
+/-! ### the command-line path: `-g go:<opts>` → plugin.ParseCompactArguments → args.checkOptions →
+plugin.Pack → HandleOptions (args/args.go, plugin/plugin.go) -/
+
+/-- strings.Split(s, ",") -/
+def splitComma : Bytes → List Bytes
+  | [] => [[]]
+  | x :: r =>
+      if x = 44 then [] :: splitComma r
+      else match splitComma r with
+        | h :: t => (x :: h) :: t
+        | [] => [[x]]
+
+/-- the options of plugin.ParseCompactArguments("go:" ++ s): `kv := strings.SplitN(a, "=", 2)`, Name = kv[0],
+Desc = kv[1] when present -/
+def parseOpts (s : Bytes) : List (Bytes × Bytes) :=
+  (splitComma s).map fun a => ((splitEq a).1, (splitEq a).2.getD [])
+
+/-- plugin.Pack: `o.Name + "=" + o.Desc` -/
+def pack (o : List (Bytes × Bytes)) : List Bytes := o.map fun p => p.1 ++ 61 :: p.2
+
+/-- the option loop of HandleOptions keeping the state reached when an option is rejected
+(checkOptions ignores the error and reads the features anyway) -/
+def runP (env : Env) : Cfg → List Bytes → Cfg × Bool
+  | c, [] => (c, true)
+  | c, a :: r => match step env c a with
+      | some c' => runP env c' r
+      | none => (c, false)
+
+/-- the scratch CodeUtils of checkOptions after `cu.HandleOptions(params)` -/
+def probe (env : Env) (args : List Bytes) : Cfg :=
+  match runP env (init env) args with
+  | (c, true) => slimRule env c
+  | (c, false) => c
+
+structure CmdEnv where
+  iNested : Nat          -- index of EnableNestedStruct
+  templateName : Bytes   -- "template"
+
+/-- args.checkOptions: with nested structs on and no option NAMED `template`, `template=slim` is appended
+(an option named `template` is left as it is: the loop assigns to a copy) -/
+def checkOptions (env : Env) (ce : CmdEnv) (o : List (Bytes × Bytes)) : List (Bytes × Bytes) :=
+  if feat (probe env (pack o)) ce.iNested then
+    if o.any (fun p => p.1 == ce.templateName) then o else o ++ [(ce.templateName, env.slimName)]
+  else o
+
+/-- what the go backend's HandleOptions ends with for `-g go:<s>`.  The probe run of checkOptions shares the
+process-wide naming-style objects with the backend's run: the latter starts from their flags. -/
+def cmdline (env : Env) (ce : CmdEnv) (s : Bytes) : Option Cfg :=
+  let o := parseOpts s
+  let flags := (probe env (pack o)).styleFlags
+  handleFrom env { init env with styleFlags := flags } (pack (checkOptions env ce o))
 
 end Options
